@@ -76,6 +76,10 @@ class Symbol:
         update_cache(instance)
         return instance
 
+    def __reduce_ex__(self, protocol):
+        # the pickle protocols 0 and 1 rebuild an instance with object.__new__, which would not register it
+        return super().__reduce_ex__(max(protocol, 2))
+
 
 @dataclass(eq=False)
 class Predicate(Symbol, ABC):
